@@ -100,6 +100,9 @@ func (d *dynUpdater) checkConfigChange() bool {
 	if !d.backendUpdated() {
 		diff = append(diff, "backends")
 	}
+	if d.config.backends.DefaultBackendChanged() {
+		diff = append(diff, "default backend")
+	}
 	if len(diff) > 0 {
 		d.logger.InfoV(2, "need to reload due to config changes: %v", diff)
 		return false
